@@ -563,7 +563,7 @@ func (t *RaftTransaction) ListPage(ctx context.Context, prefix string, after str
 		}
 		var mergedEntries []string
 		for updateEntry := range updates {
-			if updateEntry < entry && updateEntry > lastKey {
+			if updateEntry < entry && (len(keys) == 0 || updateEntry > lastKey) {
 				mergedEntries = append(mergedEntries, updateEntry)
 				delete(updates, updateEntry)
 			}
@@ -597,7 +597,10 @@ func (t *RaftTransaction) ListPage(ctx context.Context, prefix string, after str
 	}
 	var mergedEntries []string
 	for updateEntry := range updates {
-		if updateEntry > lastKey {
+		// With nothing listed so far every pending entry qualifies, also the
+		// empty entry (a pending key equal to the prefix itself), which does
+		// not sort after the empty lastKey.
+		if len(keys) == 0 || updateEntry > lastKey {
 			mergedEntries = append(mergedEntries, updateEntry)
 			delete(updates, updateEntry)
 		}
